@@ -112,6 +112,7 @@ class Engine:
         self._floors = {}
         self.hash_log = []
         self.hash_recording = False
+        self.loose_hashes = []
         self.round_log = []
         self.markers = []
         self.n_concretised = 0
@@ -382,6 +383,27 @@ class Engine:
         terms = tuple(self.hash_log)
         self.hash_log = []
         return (h, terms)
+
+    def loose_hash(self, z):
+        """hash() of a symbolic number outside hash_of (DESIGN 3.2): the constant returned makes all such hashes
+        collide, which is exact for containers (they fall back on the symbolic ==) and an over-approximation for code
+        that uses the value itself.  For the latter a hint is left for the choice of counterexample models: the first
+        two different numbers hashed this way form a real collision of CPython's numeric hash (they differ by the
+        modulus 2**61 - 1 on one side of zero, or are -1 and -2), so that a candidate can reproduce in the replay."""
+        if z.sort() == z3.IntSort():
+            z = z3.ToReal(z)
+        self.loose_hashes.append(z)
+        if len(self.loose_hashes) < 2 or getattr(self, '_loose_hinted', False):
+            return
+        z1 = self.loose_hashes[0]
+        for z2 in self.loose_hashes[1:]:
+            if not z1.eq(z2):
+                m = 2 ** 61 - 1
+                self.hint(z3.Or(z3.And(z1 >= 0, z2 == z1 + m), z3.And(z1 <= 0, z2 == z1 - m),
+                                z3.And(z1 == -1, z2 == -2), z3.And(z1 == -2, z2 == -1)))
+                self._loose_hinted = True
+                self.notes.append('hash-value-used-outside-recording')
+                break
 
     def hash_equal(self, ha, hb):
         """formula: the two recorded hashes are equal for every valuation: same concrete residue and
@@ -670,11 +692,13 @@ class Engine:
     def _input_model(self, model, extra=None, nice=True):
         """input name -> encoded value under `model`; tries to make decimal-
         flavoured inputs decimal-representable."""
+        hinted = []
         if self.hints and extra is not None:
             # stubs may have left hints about which values make their chosen outcome real
             r, mh = self._query([extra] + list(self.hints), min(self.feas_ms, 1500))
             if r == 'sat':
                 model = mh
+                hinted = list(self.hints)
         out = {}
         bad = False
         for name, (kind, var, flav) in self.inputs.items():
@@ -685,13 +709,16 @@ class Engine:
             if flav == 'dec' and not _is_decimal(v):
                 bad = True
             out[name] = enc_num(v)
+        if hinted:
+            out['_hinted'] = True
         if bad and nice:
-            # ask for a nicer model: all rational inputs on a decimal grid
+            # ask for a nicer model: all rational inputs on a decimal grid (decimal-flavoured ones only when a
+            # stub left hints, which typically ask for non-decimal values of the others)
             for digits in (3, 9, 30):
                 cons = [z3.IsInt(var * (10 ** digits))
                         for (kind, var, flav) in self.inputs.values()
-                        if kind == 'rat']
-                r, m2 = self._query(([extra] if extra is not None else []) + cons,
+                        if kind == 'rat' and (flav == 'dec' or not hinted)]
+                r, m2 = self._query(([extra] if extra is not None else []) + hinted + cons,
                                     min(self.feas_ms, 1000))
                 if r == 'sat':
                     out = {}
@@ -699,6 +726,8 @@ class Engine:
                         v = z3_to_py(m2.eval(var, model_completion=True))
                         out[name] = enc_num(v) if (v is not None and not _too_long(v)) else None
                     out['_nice'] = True
+                    if hinted:
+                        out['_hinted'] = True
                     return out, m2
             out['_unrepresentable'] = True
         elif bad:
